@@ -369,14 +369,16 @@ PROPERTIES["C17"] = {
 # ------------------------------------------------------------------------------------------ C12 (MIR engine; partial: containment and no panic)
 _C12_LINK = [(k, a, b) for k in ("regular", "dir", "symlink") for (a, b) in ((1, 1), (1, 3), (2, 2), (2, 4), (2, 5), (3, 5))]
 PROPERTIES["C12"] = {
-    "harnesses": [MH("c12_dirs_%d" % n, inputs="one directory name of %d characters over {'/', '.', 'a'} (every string), no files" % n, bounds="Package::extract, DIRNAMES pre-creation", timeout=600,
+    "harnesses": [MH("c12_positive_" + k, inputs="one %s entry at /<x><y> (two symbolic letters), permission bits any 12 bits, 2 symbolic content bytes / 2-letter link target" % k, timeout=600,
+                     bounds="where extraction returns Ok: the file-system calls made at target+path are create+write(content)+chmod(bits) / mkdir+chmod / symlink(target)") for k in ("regular", "dir", "symlink")]
+    + [MH("c12_dirs_%d" % n, inputs="one directory name of %d characters over {'/', '.', 'a'} (every string), no files" % n, bounds="Package::extract, DIRNAMES pre-creation", timeout=600,
                      covers_unsat_ok=["extraction succeeds", "extraction returns an error"]) for n in (1, 2, 3, 4, 5)]
     + [MH("c12_file_%s_%d" % (k, n), inputs="one %s entry with a path of %d characters over {'/', '.', 'a'} (every string)" % (k, n), bounds="Package::extract, one file entry", timeout=900, tier=("quick" if n <= 5 else "thorough"),
           covers_unsat_ok=["extraction succeeds", "extraction returns an error"]) for k in ("regular", "dir", "symlink", "special") for n in (2, 4, 5, 6)]
     + [MH("c12_link_then_%s_%d_%d" % (k, a, b), inputs="a symbolic-link entry with a path of %d characters followed by a %s entry with a path of %d characters, both over {'/', '.', 'a', 'b'} (every pair)" % (a, k, b),
           bounds="Package::extract, two file entries", timeout=1800, tier=("quick" if a + b <= 6 else "thorough"), covers_unsat_ok=["extraction succeeds", "extraction returns an error"]) for (k, a, b) in _C12_LINK],
     "bounds": "one directory name up to 5 characters; one file entry with a path up to 6 characters (5 in the quick tier); a symbolic link followed by one more entry (paths up to 3 and 5 characters; 2 and 4 in the quick tier); characters over {'/', '.', 'a'(, 'b')}",
-    "outside": "the positive half of the property (content, permission bits and link targets that end up on disk): effects of real system calls are not modelled; more than two entries; hard links, "
+    "outside": "what the kernel does with the calls (the positive half is decided at the level of which calls are made with which arguments); more than two entries; hard links, "
                "time-of-check/time-of-use races with other processes; reading the payload (Package::files is replaced by a list of entries: covered under C04 cpio harnesses)",
     "assumptions": A_MIR + ["file system = recording stub: every call may succeed or fail, exists() answers arbitrarily; the target directory is fresh (create_dir succeeded), so everything below it was made by this run and "
                             "symlink_metadata answers from the model's set of links created so far",
@@ -573,9 +575,10 @@ PROPERTIES["C07"].update(claim="Partial: for packages built by this library (unc
 PROPERTIES["C11"].update(claim="Partial (in-process reproducibility and clamping): the builder itself (new, add_data, build, write) is symbolically executed from MIR with the clock and every hash-set iteration "
                          "order as arbitrary environment choices: for the listed configurations any two builds of the same inputs produce the same bytes, and BUILDTIME and every file mtime are at most the source date. "
                          "Signing, compression and cross-process effects other than hash seeds and the clock are outside reach.", note=_NOTE_MIR)
-PROPERTIES["C12"].update(claim="Partial (containment and panic-freedom only): Package::extract is symbolically executed from MIR against a recording file-system stub with the extraction's own symbolic links as state: "
+PROPERTIES["C12"].update(claim="Partial (containment, panic-freedom, and the positive half at call level): Package::extract is symbolically executed from MIR against a recording file-system stub with the extraction's own symbolic links as state: "
                          "for every directory name / entry path within the bounds, every path handed to a mutating file-system call is below the target, never through or onto a link an earlier entry created, and the call "
-                         "returns Ok or Err. That archived content and permission bits arrive on disk is outside reach.", note=_NOTE_MIR)
+                         "returns Ok or Err; for a benign entry whose extraction succeeds the calls made are the ones that create it at target+path with the archived content, permission bits or link target. "
+                         "What the kernel does with those calls is outside reach.", note=_NOTE_MIR)
 PROPERTIES["C17"].update(claim="Partial: the builder's destination handling (PackageBuilder::add_data) is symbolically executed from MIR for every destination string up to 6 characters over {'/', '.', 'a'}: "
                          "it returns Ok or InvalidDestinationPath, never panics; FileOptionsBuilder::caps reports invalid capability text as InvalidCapabilities; Compressor::try_from hands the gzip/xz/bzip2 encoder constructors only levels they accept, for every 32-bit level "
                          "(constructor contracts as stubs; the encoders themselves are FFI and outside reach).", note=_NOTE_MIR)
